@@ -4162,6 +4162,13 @@ int EGLPNUM_TYPENAME_ILLlib_getrownorms (
 */
 		ILL_CLEANUP;
 	}
+	if ((int) __EGlpNumArraySize (pinf->dsinfo.norms) < nrows)
+	{
+		/* norms left over from a solve of a smaller problem (rows were added and
+		 * the last solve did not rebuild them): not available */
+		rval = 1;
+		ILL_CLEANUP;
+	}
 
 	for (i = 0; i < nstruct; i++)
 	{
